@@ -102,6 +102,11 @@ def build(state):
             for b, a in enumerate(st):
                 if a >= 0:
                     xtuml.relate(P['B'][b], P['A'][a], 1)
+                    if PARAMS.get('rerelate'):
+                        # link history: the pair just related is unrelated and related again (the final links and their
+                        # order are the same; the containers behind them have seen a removal of their last element)
+                        xtuml.unrelate(P['B'][b], P['A'][a], 1)
+                        xtuml.relate(P['B'][b], P['A'][a], 1)
                     ref.link(P['B'][b], P['A'][a], 'B', 'A', 'R1', '', '')
         elif u == 'r2':
             for b, s in enumerate(st):
